@@ -389,6 +389,70 @@ Proof.
   rewrite map_id. reflexivity.
 Qed.
 
+(* the byte-level versions: what is assumed about pickle and about the file layer is a hypothesis of the statement *)
+Lemma rmap_map {A B C} (f : B -> result C) (g : A -> B) l : rmap f (map g l) = rmap (fun x => f (g x)) l.
+Proof. induction l as [|x t IH]; [reflexivity|]. cbn [map rmap]. rewrite IH. reflexivity. Qed.
+
+Lemma rmap_ext {A B} (f g : A -> result B) l : (forall x, f x = g x) -> rmap f l = rmap g l.
+Proof. intro H. induction l as [|x t IH]; [reflexivity|]. cbn [rmap]. rewrite H, IH. reflexivity. Qed.
+
+Section CodecLemmas.
+  Variables pbytes fbytes : Type.
+  Variable pkl_dumps : pstate -> pbytes.
+  Variable pkl_loads : pbytes -> pstate.
+  Variable file_write : file_ext -> list pbytes -> fbytes.
+  Variable file_read : file_ext -> fbytes -> list pbytes.
+  Hypothesis pickle_inverts : forall s, pkl_loads (pkl_dumps s) = s.
+  Hypothesis file_inverts : forall e l, file_read e (file_write e l) = l.
+
+  Lemma pickle_via_is x : pickle_via pbytes pkl_dumps pkl_loads x = pickle_roundtrip x.
+  Proof. unfold pickle_via, pickle_roundtrip. rewrite pickle_inverts. reflexivity. Qed.
+
+  Lemma filez_via_is e u xs :
+    filez_via pbytes fbytes pkl_dumps pkl_loads file_write file_read e u xs = filez_roundtrip u xs.
+  Proof.
+    unfold filez_via, filez_roundtrip. rewrite file_inverts, rmap_map. apply rmap_ext. intro x.
+    rewrite pickle_inverts. reflexivity.
+  Qed.
+
+  Lemma pickle_rt_via x : wf_fp (xfp x) -> pickle_via pbytes pkl_dumps pkl_loads x = x.
+  Proof. intro W. rewrite pickle_via_is. apply pickle_rt. exact W. Qed.
+
+  Lemma pickle_keeps_via x :
+    let y := pickle_via pbytes pkl_dumps pkl_loads x in
+    fkind (xfp y) = fkind (xfp x) /\ fbits (xfp y) = fbits (xfp x) /\ flevel (xfp y) = flevel (xfp x) /\
+    fcnt (xfp y) = fcnt (xfp x) /\ fname (xfp y) = fname (xfp x) /\ xprops y = xprops x /\
+    fidx (xfp y) = match fkind (xfp x) with KBit => fidx (xfp x) | _ => usort (ckeys (fcnt (xfp x))) end.
+  Proof. cbv zeta. rewrite pickle_via_is. apply pickle_keeps. Qed.
+
+  Lemma filez_rt_via e u xs : (forall x, In x xs -> wf_fp (xfp x)) ->
+    filez_via pbytes fbytes pkl_dumps pkl_loads file_write file_read e u xs = Ok xs.
+  Proof. intro H. rewrite filez_via_is. apply filez_rt. exact H. Qed.
+
+  Lemma file_rt_via e u x : wf_fp (xfp x) ->
+    file_via pbytes fbytes pkl_dumps pkl_loads file_write file_read e u x = Ok (Some x).
+  Proof.
+    intro W. unfold file_via. rewrite filez_rt_via by (intros y [<-|[]]; exact W). reflexivity.
+  Qed.
+
+  (* pickle and files are the formats that carry level, name and props themselves *)
+  Lemma file_carries_meta e u x y : wf_fp (xfp x) ->
+    file_via pbytes fbytes pkl_dumps pkl_loads file_write file_read e u x = Ok (Some y) ->
+    flevel (xfp y) = flevel (xfp x) /\ fname (xfp y) = fname (xfp x) /\ xprops y = xprops x.
+  Proof. intros W H. rewrite (file_rt_via e u x W) in H. inversion H; subst y. repeat split. Qed.
+End CodecLemmas.
+
+(* level and name come back from the other formats exactly when the caller supplies them again *)
+Lemma set_meta_resupplied a : fname a <> Some EmptyString ->
+  set_meta a (level_arg (Some (flevel a))) (name_arg (fname a)) = a.
+Proof.
+  intro H. destruct a as [k b lv idx cnt nm]. unfold set_meta. cbn in *.
+  destruct nm as [[|c s]|]; [congruence | reflexivity | reflexivity].
+Qed.
+
+Lemma level_not_carried a nm : flevel (set_meta a (level_arg None) nm) = Some (-1).
+Proof. reflexivity. Qed.
+
 (* ---- index array ------------------------------------------------------------------------------------------------------------------- *)
 Lemma from_indices_of_conv a lv nm : wf_fp a ->
   from_indices_of a lv nm = Ok (set_meta (conv (fkind a) a) (level_arg lv) (name_arg nm)).
@@ -404,6 +468,27 @@ Qed.
 
 Lemma indices_rt a lv nm : wf_fp a -> from_indices_of a lv nm = Ok (set_meta a (level_arg lv) (name_arg nm)).
 Proof. intro W. rewrite (from_indices_of_conv a lv nm W), (conv_same_kind a W). reflexivity. Qed.
+
+(* corollaries: with the fingerprint's own level and name passed again, the value itself comes back *)
+Lemma indices_rt_resupplied a : wf_fp a -> fname a <> Some EmptyString ->
+  from_indices_of a (Some (flevel a)) (fname a) = Ok a.
+Proof. intros W N. rewrite (indices_rt a _ _ W), (set_meta_resupplied a N). reflexivity. Qed.
+
+Lemma dense_vector_rt_resupplied a : wf_fp a -> fits_dtype a -> fname a <> Some EmptyString ->
+  rbind (to_dense None a) (fun v => from_dense (fkind a) v None (Some (flevel a)) (fname a)) = Ok a.
+Proof. intros W F N. rewrite (dense_vector_rt a _ _ W F), (set_meta_resupplied a N). reflexivity. Qed.
+
+Lemma csr_vector_rt_resupplied a : wf_fp a -> fits_dtype a -> fname a <> Some EmptyString ->
+  rbind (to_csr None a) (fun m => from_csr (fkind a) m None (Some (flevel a)) (fname a)) = Ok a.
+Proof. intros W F N. rewrite (csr_vector_rt a _ _ W F), (set_meta_resupplied a N). reflexivity. Qed.
+
+Lemma bitstring_rt_resupplied a : wf_fp a -> unit_counts a -> fname a <> Some EmptyString ->
+  rbind (to_bitstring a) (fun s => from_bitstring (fkind a) s None (Some (flevel a)) (fname a)) = Ok a.
+Proof. intros W U N. rewrite (bitstring_rt a _ _ W U), (set_meta_resupplied a N). reflexivity. Qed.
+
+Lemma rdkit_rt_resupplied a : wf_fp a -> fbits a <= rdkit_max -> unit_counts a -> fname a <> Some EmptyString ->
+  rbind (to_rdkit a) (fun r => from_rdkit (fkind a) r None (Some (flevel a)) (fname a)) = Ok a.
+Proof. intros W B U N. rewrite (rdkit_rt a _ _ W B U), (set_meta_resupplied a N). reflexivity. Qed.
 
 (* ---- above 2^31-1 the RDKit form is not injective (outside the property: "for lengths below 2^31") ------------------------------- *)
 Definition ex_rdkit_a : fp := mkfp KBit (2 ^ 32) minus1 [0; 5] [] None.
